@@ -40,6 +40,14 @@ def gen(rng, tier):
         steps = rng.choice([1, 1, 2, 3, 5, 10, 50, 200] if tier == 'quick' else list(range(1, 65)))
         yield {'trajs': trajs, 'lag': lag, 'start': rng.choice(present), 'steps': steps, 'seed': rng.randrange(2**31),
                'alpha': akind, 'tmat': None}
+    for _ in range(4 if tier == 'quick' else 60):
+        # the lag time as a NumPy integer scalar (signed and unsigned, narrow) and a trajectory of more than 256 frames
+        # whose later part changes the counts
+        labs, akind = G.alphabet(rng, k=rng.randint(3, 4))
+        first = G.traj(rng, labs[:-1], rng.randint(260, 300), sticky=0.6)
+        t = first + G.traj(rng, labs, rng.randint(150, 400), sticky=0.3) + labs
+        yield {'trajs': [t], 'lag': rng.choice([1, 2, 3]), 'start': rng.choice(labs), 'steps': rng.choice([20, 200]), 'seed': rng.randrange(2**31),
+               'alpha': akind + '+typed-lag', 'tmat': None, 'lagtype': rng.choice(['uint8', 'uint8', 'int8', 'uint16', 'int16', 'uint64'])}
     for _ in range(2 if tier == 'quick' else 12):       # transitions with probability below 1e-5
         labs, akind = G.alphabet(rng, k=rng.randint(2, 4))
         rle = G.rare_rle(rng, labs)
@@ -195,6 +203,7 @@ def impl(case):
     from msmhelper.msm import timescales as ts
     out = {}
     nojit = bool(numba.config.DISABLE_JIT)
+    lagv = np.dtype(case['lagtype']).type(case['lag']) if case.get('lagtype') else case['lag']      # NumPy integer scalar as lag time
     if case['tmat'] is None:
         trajs = [np.array(t) for t in G.expand(case)]
         st = mh.StateTraj(trajs)
@@ -205,9 +214,9 @@ def impl(case):
             trajs = st
         # history: the same frames cut differently (joined into one trajectory, or the first one cut in
         # two) are sampled FIRST; nothing of that call may survive into the calls on `trajs`
-        related(trajs, case['lag'], lambda d: ts.propagate_MCMC(d, case['lag'], 3))
+        related(trajs, lagv, lambda d: ts.propagate_MCMC(d, lagv, 3))
         try:
-            cm, perm = ts._get_cummat(trajs, case['lag'])
+            cm, perm = ts._get_cummat(trajs, lagv)
         except (AttributeError, TypeError) as exc:
             # the instrumented private helper is gone / changed: public-API part only
             out['hook_local'] = '_get_cummat: %s' % str(exc)[:120]
@@ -291,10 +300,10 @@ def impl(case):
         except Exception as exc:  # noqa
             return {'err': type(exc).__name__, 'msg': str(exc)[:100]}
     if case['tmat'] is None:
-        out['chain'] = guarded(lambda: ts.propagate_MCMC(trajs, case['lag'], N, start=case['start']))
+        out['chain'] = guarded(lambda: ts.propagate_MCMC(trajs, lagv, N, start=case['start']))
         draws(0)
-        out['chain2'] = guarded(lambda: ts.propagate_MCMC(trajs, case['lag'], N, start=case['start']))
-        out['badstart'] = guarded(lambda: ts.propagate_MCMC(trajs, case['lag'], N, start=max(out['states']) + (8 if max(out['states']) == -8 else 7)))
+        out['chain2'] = guarded(lambda: ts.propagate_MCMC(trajs, lagv, N, start=case['start']))
+        out['badstart'] = guarded(lambda: ts.propagate_MCMC(trajs, lagv, N, start=max(out['states']) + (8 if max(out['states']) == -8 else 7)))
     else:
         out['chain'] = guarded(lambda: ds.propagate_tmat(T, N, start=case['start']))
         draws(0)
